@@ -134,3 +134,18 @@ package types
 //@   requires bytes(node.ServerEncryptionPublicKeyBytes) == xpub(server.ServerEncryptionPrivateKeyBytes)
 //@   requires bytes(node.CertificatePublicKeyPkix) == bytes(server.CertificatePublicKeyPkix)
 //@   ensures[C11 agree] nerr == nil && serr == nil ==> nid == sid && bytes(nkey) == bytes(skey)
+
+// ---------------------------------------------------------------- fetch request creation (C03)
+
+//@ func types.(*NodeCredentials).CreateFetchNodeCredentialsRequest
+//@   ensures[C03 failclosed] err != nil ==> ret == nil
+//@   ensures[C03 window] err == nil ==> ret != nil
+//@   |   && decField("types.FetchNodeCredentialsInfo", "NotBefore", ret.Bundle) == now(0)
+//@   |   && decField("types.FetchNodeCredentialsInfo", "NotAfter", ret.Bundle) == now(0) + DefaultFetchCredentialsLifetime
+//@   ensures[C03 signed] err == nil ==> Verify(edpub(unpkcs8(n.CertificatePrivateKeyPkcs8)), ret.Bundle, ret.BundleSignature)
+//@   ensures[C03 fields] err == nil ==>
+//@   |   decField("types.FetchNodeCredentialsInfo", "CertificatePublicKeyPkix", ret.Bundle) == bytes(n.CertificatePublicKeyPkix)
+//@   |   && decField("types.FetchNodeCredentialsInfo", "EncryptionPublicKeyBytes", ret.Bundle) == xpub(n.EncryptionPrivateKeyBytes)
+//@   |   && decField("types.FetchNodeCredentialsInfo", "EncryptionPublicKeyType", ret.Bundle) == KEYTYPE_X25519
+//@   |   && (opts(opt).WithActivationToken == "" || !IsNil(opts(opt).WithRegistrationWrapper) ==>
+//@   |        decField("types.FetchNodeCredentialsInfo", "Nonce", ret.Bundle) == bytes(n.RegistrationNonce))
